@@ -283,3 +283,10 @@ mod tests {
         assert_eq!(map.key(&storage, &value), Ok(None));
     }
 }
+
+// Verification hook (inactive unless built with `--cfg agdb_verif` under Kani).
+#[cfg(all(agdb_verif, kani))]
+#[allow(unused, dead_code, clippy::all)]
+pub(crate) mod verif_h {
+    include!(concat!(env!("AGDB_VERIF_HARNESS"), "/indexed_map_h.rs"));
+}
